@@ -655,6 +655,9 @@ func (fv *FV) checkFrame(exit *State, c *Contract, env *SpecEnv, d *declInfo) {
 		if id, ok := sel.X.(SIdent); ok && id.Name == "ghost" {
 			continue
 		}
+		if id, ok := sel.X.(SIdent); ok && id.Name == "chans" && sel.Sel == "closed" {
+			continue
+		}
 		if id, ok := sel.X.(SIdent); ok {
 			if _, bound := env.names[id.Name]; !bound {
 				if tn := env.lookupType(id.Name); tn != nil {
@@ -729,6 +732,11 @@ func (fv *FV) checkFrame(exit *State, c *Contract, env *SpecEnv, d *declInfo) {
 			if declaredGhost {
 				continue
 			}
+		}
+		if k == "chan.closed" && assignsChanClosed(c) {
+			// declared `assigns chan.closed`: channels may be closed, never re-opened
+			fv.oblige(exit, "assigns", label, fmt.Sprintf("(forall ((r!f Int)) (=> (and (<= r!f alloc0) (select %s r!f)) (select %s r!f)))", old.T, cur.T), "channels are only ever closed", d.decl.Pos())
+			continue
 		}
 		if strings.HasPrefix(k, "G:") || k == "chan.closed" && false {
 			fv.oblige(exit, "assigns", label, fmt.Sprintf("(= %s %s)", cur.T, old.T), "global "+k+" not in assigns", d.decl.Pos())
@@ -879,4 +887,17 @@ func (fv *FV) lemmaCall(st *State, env *SpecEnv, s LemmaStep, pkg *packages.Pack
 			fv.specNames[r] = out[i]
 		}
 	}
+}
+
+// assignsChanClosed: the contract declares `assigns chan.closed` (the function
+// may close channels it does not name; the frame is then monotonicity).
+func assignsChanClosed(c *Contract) bool {
+	for _, a := range c.Assigns {
+		if sel, ok := a.(SSel); ok {
+			if id, ok := sel.X.(SIdent); ok && id.Name == "chans" && sel.Sel == "closed" {
+				return true
+			}
+		}
+	}
+	return false
 }
